@@ -30,6 +30,25 @@ CHECKS = {
                 note="oracle: SQL 3VL; sub-evaluators pure; _NO_OBJECT not judged; synchronize_session plumbing and the database are outside"),
 }
 
+def B(text, note, design, level="exploration"):
+    return dict(level=level, technique=BOUNDED_TECH, design=design, text=text, note=note)
+
+
+CHECKS.update({
+    "C05": B("run-time contract on the real literal processors / render_literal_value: the rendered text is exactly one literal token of the dialect's documented lexer and decodes to the bound value; exhaustive strings over an adversarial alphabet x 11 dialect variants, numeric/date boundary lists, executed on in-process sqlite3. Bounded: labelled exploration, not proof (str.replace chains are undecidable in the installed solvers).",
+             "assumed lexers for the non-SQLite backends; SQLite's checked by execution; strings <= 4 (quick) / 5 (thorough)", "DESIGN.md §5 C05"),
+    "C06": B("run-time contracts on IdentifierPreparer (escape/unescape inverse pair, unformat_identifiers over quoted dotted names, quote() is bare only for legal bare identifiers, reserved-word adequacy probed on in-process sqlite3) over all names <= 4 of an adversarial alphabet x 12 preparers. Bounded exploration.",
+             "other backends' keyword sets are outside (no server); SQLite instantiates the assumed backend contract", "DESIGN.md §5 C06"),
+    "C08": B("run-time contract on operators._escaped_like_impl and the compiled startswith/endswith/contains patterns: like_match(pattern, s, esc) <=> the literal prefix/suffix/substring relation, for all (other, s) <= 3 chars over {% _ / \\ ' a A} x 3 escapes x 12 operators, like_match validated against sqlite3 LIKE. Bounded exploration.",
+             "each backend's LIKE == like_match (checked for SQLite only)", "DESIGN.md §5 C08"),
+    "C20": B("inverse-pair contract make_url(u.render_as_string(hide_password=False)) == u on the real URL functions over ~3e5 URLs (all strings <= 3 of an adversarial alphabet per component, interacting pairs, hosts/ports table). Bounded exploration.",
+             "urllib.parse quote/unquote and re are CPython's; canonical query forms only", "DESIGN.md §5 C20"),
+    "C23": B("ghost nested-transaction model evaluated after every step of every operation sequence <= 5 (quick) / 6 (thorough) over 20 Connection/Transaction operations on file-backed SQLite with an independent observer connection. Bounded exploration.",
+             "SQLite (autocommit=False mode) stands for 'a backend'; PostgreSQL/MariaDB outside", "DESIGN.md §5 C23"),
+    "C27": B("fault enumeration on a fake DBAPI with a ghost ledger: a disconnect / ordinary error injected at every DBAPI call position of every history <= 4 (quick) / 5 (thorough) x 4 handle_error listener modes; contract clauses on Connection._handle_dbapi_exception and the pool checked after every step.",
+             "real drivers' is_disconnect classification is outside; fake DBAPI stands for the driver", "DESIGN.md §5 C27", level="fault_enumeration"),
+})
+
 NA_REASON_DB = "oracle is the joint behaviour of the ORM/unit of work with a live database over whole histories; no function-local contract carries it (DESIGN §5)"
 NOT_APPLICABLE = {
     "C01": "equivalence of backend evaluation of two renderings; the oracle is each backend's expression grammar, not code under contract (DESIGN §5 C01)",
